@@ -251,6 +251,7 @@ def handlers : HandlerShape := {
   linkNoneGuard := false
   idStringGuard := false
   entityGuard := false
+  stateNoneGuard := false
   convCatch := [("sdr list", ["CompletionCodeError"]), ("sdr show", ["ValueError"]), ("sdr showall", ["ValueError"])] }
 
 /-- `SdrCommon.from_data`: record type ↦ (class sets `device_id_string`, class sets `entity_id`) -/
